@@ -38,6 +38,8 @@ type Program struct {
 	devirt      map[string]string
 	cfiles      []*ContractFile
 	moduleDirs  []string
+	topPkgName  string // package of the function currently under verification (scopes trusted contracts)
+	topPkgPath  string
 }
 
 func loadProgram(dir string, patterns []string, tags string) (*Program, error) {
@@ -157,7 +159,18 @@ func loadProgram(dir string, patterns []string, tags string) (*Program, error) {
 			p.ghostFuncs[g.Name] = g
 		}
 		for _, m := range cf.Monitors {
-			p.monitors[m.Struct+"."+m.Mutex] = m
+			k := m.Struct + "." + m.Mutex
+			if old, ok := p.monitors[k]; ok {
+				// a monitor may be declared in several blocks (one per property): merge
+				if m.Self != "self" && old.Self != m.Self {
+					return nil, fmt.Errorf("%s: monitor %s declared with different self names (%s, %s)", cf.File, k, old.Self, m.Self)
+				}
+				old.Protects = mergeStr(old.Protects, m.Protects)
+				old.Inv = append(old.Inv, m.Inv...)
+				old.Rely = append(old.Rely, m.Rely...)
+				continue
+			}
+			p.monitors[k] = m
 		}
 		p.lemmas = append(p.lemmas, cf.Lemmas...)
 		p.axioms = append(p.axioms, cf.Axioms...)
@@ -301,13 +314,37 @@ func contractKeys(fn *types.Func) []string {
 	return []string{pkgName + "." + name, name}
 }
 
+// contractFor: the contract that applies to a call of fn from a function verified in package topPkg.
+// Contracts of functions with bodies belong to the function's package. Trusted contracts (iface / extern / field) are
+// scoped: the one written in the caller's package wins, then the one written in the callee's own package; a trusted
+// contract written in an unrelated package is not used (each property states its own closed-world assumptions).
 func (p *Program) contractFor(fn *types.Func) *Contract {
-	for _, k := range contractKeys(fn.Origin()) {
-		if c, ok := p.contracts[k]; ok {
-			// a short key must belong to the same package unless it is an extern
-			if c.Kind == "func" && fn.Pkg() != nil && c.PkgPath != fn.Pkg().Path() {
+	keys := contractKeys(fn.Origin())
+	short := keys[len(keys)-1]
+	if p.topPkgName != "" {
+		if c, ok := p.contracts[p.topPkgName+"."+short]; ok && c.Kind != "func" {
+			return c
+		}
+	}
+	for _, k := range keys {
+		c, ok := p.contracts[k]
+		if !ok {
+			continue
+		}
+		if c.Kind == "func" {
+			if fn.Pkg() != nil && c.PkgPath != fn.Pkg().Path() {
 				continue
 			}
+			return c
+		}
+		// trusted contract reached through a short or callee-qualified key
+		if fn.Pkg() != nil && c.PkgPath == fn.Pkg().Path() {
+			return c
+		}
+		if p.topPkgPath != "" && c.PkgPath == p.topPkgPath {
+			return c
+		}
+		if k != short {
 			return c
 		}
 	}
